@@ -87,9 +87,13 @@ static void oracle(const Prm &p, const CallData &d, const Out &o, Result &r) {
     std::vector<Q> tr = resid(A, d.f, o.x);
     if (p.solver == 1 && p.left) tr = dmv(PD, tr);
     Q truth = nrm(tr) / nf;
-    if (O_C01 && o.res.v != truth.v) {
-        if (p.solver == 1 && p.check_after && o.it == 0) r.fail("bicgstab check_after: zero-iteration return reports 2*eps/norm_rhs, not the residual of x");
-        else r.fail("reported residual != recomputed true residual of the returned x");
+    if (O_C01 && o.res.v != truth.v) r.fail("reported residual != recomputed true residual of the returned x");
+    // the check_after corner (bicgstab.hpp:242-244, fixed in /repo 13b78b9): a call that makes no pass returns x0 itself
+    // and - by the oracle above - its true residual, not the placeholder 2*eps/norm_rhs the loop was entered with
+    if (p.solver == 1 && p.check_after && o.it == 0) {
+        r.tag("check_after_zero_pass");
+        if (O_C01) for (long i = 0; i < n; ++i) if (o.x[i].v != d.x0[i].v) { r.fail("bicgstab check_after: zero passes but x != x0"); break; }
+        if (O_C01 && !(p.maxiter == 0 || !(Q(2) * epsT > epsT))) r.fail("bicgstab check_after: zero passes although maxiter > 0 and 2*eps > eps");
     }
     // C15: converged guess is returned unchanged in zero iterations
     std::vector<Q> r0 = resid(A, d.f, d.x0); if (p.solver == 1 && p.left) r0 = dmv(PD, r0);
@@ -115,7 +119,7 @@ static void oracle(const Prm &p, const CallData &d, const Out &o, Result &r) {
     if (exactP) {
         r.tag("exact_prec");
         std::vector<Q> rr = resid(A, d.f, d.x0), pr = dmv(PD, rr);
-        // (BiCGStab with check_after enters the loop iff 2*eps > eps - the zero-pass corner is C01's known finding)
+        // (BiCGStab with check_after enters the loop iff 2*eps > eps; the zero-pass corner is tagged check_after_zero_pass)
         bool enters = (p.solver == 1 && p.check_after) ? (Q(2) * epsT > epsT) : !conv0;
         bool applies = p.maxiter >= 1 && enters && !conv0 && epsT >= 0 && !(p.solver == 2 && p.damping != 1)
             && !(p.solver == 0 && dot(rr, pr) == 0) && !(p.solver == 1 && p.left && dot(pr, pr) == 0);
